@@ -211,6 +211,8 @@ def _parse_interval(interval_str):
   if not m:
     raise ValueError("Not a valid interval '%s'" % interval_str)
   num = int(m.group("num"))
+  if num <= 0:
+    raise ValueError("Interval multiple must be positive in '%s'" % interval_str)
   unit = m.group("unit")
   unit = _SINGULAR_UNITS.get(unit, unit)
   if unit not in _VALID_UNITS:
